@@ -36,63 +36,63 @@ Sized(path, padlen) == <<Len(path) \div 2>> \o (IF padlen THEN <<0>> ELSE <<>>) 
 (* ------------------------------------------- strict parser ------------------------------------------- *)
 (* ParsePadded(b) = [ok, segs, why]: ok only if b is a concatenation of well-formed padded segments:        *)
 (* even total length, pad bytes zero, no reserved format / type bits, lengths inside the buffer.             *)
-Bad(why) == [ok |-> FALSE, segs |-> <<>>, why |-> why]
+PBad(why) == [ok |-> FALSE, segs |-> <<>>, why |-> why]
 RECURSIVE ParseFrom(_, _)
 ParseFrom(b, p) ==
     IF p > Len(b) THEN [ok |-> TRUE, segs |-> <<>>, why |-> ""]
     ELSE LET h == b[p]  st == h \div 32 IN
     IF st = 1 THEN                                                       \* logical segment
         LET lt == (h \div 4) % 8   fmt == h % 4 IN
-        IF LogTypeOf(lt) = "reserved" THEN Bad("reserved logical type")
-        ELSE IF fmt = 3 THEN Bad("reserved logical format 0b11")
+        IF LogTypeOf(lt) = "reserved" THEN PBad("reserved logical type")
+        ELSE IF fmt = 3 THEN PBad("reserved logical format 0b11")
         ELSE IF fmt = 0 THEN
-             (IF p + 1 > Len(b) THEN Bad("logical segment cut")
+             (IF p + 1 > Len(b) THEN PBad("logical segment cut")
               ELSE LET r == ParseFrom(b, p + 2) IN
                    IF r.ok THEN [ok |-> TRUE, segs |-> <<Log(LogTypeOf(lt), LEToBig(<<b[p + 1]>>, FALSE))>> \o r.segs, why |-> ""] ELSE r)
         ELSE LET w == IF fmt = 1 THEN 2 ELSE 4 IN
-             IF p + 1 + w > Len(b) THEN Bad("logical segment cut")
-             ELSE IF b[p + 1] # 0 THEN Bad("logical pad byte not zero")
+             IF p + 1 + w > Len(b) THEN PBad("logical segment cut")
+             ELSE IF b[p + 1] # 0 THEN PBad("logical pad byte not zero")
              ELSE LET r == ParseFrom(b, p + 2 + w) IN
                   IF r.ok THEN [ok |-> TRUE, segs |-> <<Log(LogTypeOf(lt), LEToBig(SubSeq(b, p + 2, p + 1 + w), FALSE))>> \o r.segs, why |-> ""] ELSE r
     ELSE IF st = 0 THEN                                                  \* port segment
         LET ext == BitOf(h, 4) = 1   port == h % 16 IN
-        IF port = 0 THEN Bad("reserved port 0")
-        ELSE IF port = 15 THEN Bad("extended port identifier not supported here")
+        IF port = 0 THEN PBad("reserved port 0")
+        ELSE IF port = 15 THEN PBad("extended port identifier not supported here")
         ELSE IF ~ext THEN
-             (IF p + 1 > Len(b) THEN Bad("port segment cut")
+             (IF p + 1 > Len(b) THEN PBad("port segment cut")
               ELSE LET r == ParseFrom(b, p + 2) IN
                    IF r.ok THEN [ok |-> TRUE, segs |-> <<Port(port, <<b[p + 1]>>)>> \o r.segs, why |-> ""] ELSE r)
-        ELSE IF p + 1 > Len(b) THEN Bad("port segment cut")
+        ELSE IF p + 1 > Len(b) THEN PBad("port segment cut")
         ELSE LET n == b[p + 1]  pad == n % 2 IN
-             IF n < 2 THEN Bad("extended link of length < 2")
-             ELSE IF p + 1 + n + pad > Len(b) THEN Bad("extended link cut")
-             ELSE IF pad = 1 /\ b[p + 2 + n] # 0 THEN Bad("port pad byte not zero")
+             IF n < 2 THEN PBad("extended link of length < 2")
+             ELSE IF p + 1 + n + pad > Len(b) THEN PBad("extended link cut")
+             ELSE IF pad = 1 /\ b[p + 2 + n] # 0 THEN PBad("port pad byte not zero")
              ELSE LET r == ParseFrom(b, p + 2 + n + pad) IN
                   IF r.ok THEN [ok |-> TRUE, segs |-> <<Port(port, SubSeq(b, p + 2, p + 1 + n))>> \o r.segs, why |-> ""] ELSE r
     ELSE IF h = 145 THEN                                                 \* ANSI extended symbol
-        (IF p + 1 > Len(b) THEN Bad("symbol segment cut")
+        (IF p + 1 > Len(b) THEN PBad("symbol segment cut")
          ELSE LET n == b[p + 1]  pad == n % 2 IN
-              IF n = 0 THEN Bad("empty symbol")
-              ELSE IF p + 1 + n + pad > Len(b) THEN Bad("symbol cut")
-              ELSE IF pad = 1 /\ b[p + 2 + n] # 0 THEN Bad("symbol pad byte not zero")
+              IF n = 0 THEN PBad("empty symbol")
+              ELSE IF p + 1 + n + pad > Len(b) THEN PBad("symbol cut")
+              ELSE IF pad = 1 /\ b[p + 2 + n] # 0 THEN PBad("symbol pad byte not zero")
               ELSE LET r == ParseFrom(b, p + 2 + n + pad) IN
                    IF r.ok THEN [ok |-> TRUE, segs |-> <<Sym(SubSeq(b, p + 2, p + 1 + n))>> \o r.segs, why |-> ""] ELSE r)
     ELSE IF h = 128 THEN                                                 \* simple data segment
-        (IF p + 1 > Len(b) THEN Bad("data segment cut")
+        (IF p + 1 > Len(b) THEN PBad("data segment cut")
          ELSE LET n == 2 * b[p + 1] IN
-              IF p + 1 + n > Len(b) THEN Bad("data segment cut")
+              IF p + 1 + n > Len(b) THEN PBad("data segment cut")
               ELSE LET r == ParseFrom(b, p + 2 + n) IN
                    IF r.ok THEN [ok |-> TRUE, segs |-> <<Data(SubSeq(b, p + 2, p + 1 + n))>> \o r.segs, why |-> ""] ELSE r)
-    ELSE Bad("unsupported segment type")
+    ELSE PBad("unsupported segment type")
 
-ParsePadded(b) == IF Len(b) % 2 = 1 THEN Bad("odd length") ELSE ParseFrom(b, 1)
+ParsePadded(b) == IF Len(b) % 2 = 1 THEN PBad("odd length") ELSE ParseFrom(b, 1)
 
 \* a path preceded by its size in words (and an optional reserved byte): [ok, segs, why, used]
 ParseSized(b, padlen) ==
     LET hdr == IF padlen THEN 2 ELSE 1 IN
-    IF Len(b) < hdr THEN Bad("no size byte")
-    ELSE IF padlen /\ b[2] # 0 THEN Bad("reserved byte after size not zero")
-    ELSE IF Len(b) - hdr # 2 * b[1] THEN Bad("word count does not match path length")
+    IF Len(b) < hdr THEN PBad("no size byte")
+    ELSE IF padlen /\ b[2] # 0 THEN PBad("reserved byte after size not zero")
+    ELSE IF Len(b) - hdr # 2 * b[1] THEN PBad("word count does not match path length")
     ELSE ParsePadded(SubSeq(b, hdr + 1, Len(b)))
 \* the same when more bytes follow: returns the parse and the position after the path
 ParseSizedPrefix(b, p, padlen) ==
